@@ -93,43 +93,43 @@ def blocking_pattern(path):
 PARTS = dict(parts=SeqOf(Str))
 
 
-@contract(F + "_matches_std_fs_pattern", props=["C17"], types=PARTS, returns=Bool)
+@contract(F + "_matches_std_fs_pattern", props=["C17", "C11", "C13", "C19"], types=PARTS, returns=Bool)
 class MatchesStdFs:
     def value(parts):
         return std_fs_parts(parts)
 
 
-@contract(F + "_matches_short_fs_pattern", props=["C17"], types=PARTS, returns=Bool)
+@contract(F + "_matches_short_fs_pattern", props=["C17", "C11", "C13", "C19"], types=PARTS, returns=Bool)
 class MatchesShortFs:
     def value(parts):
         return short_fs_parts(parts)
 
 
-@contract(F + "_matches_std_sleep_pattern", props=["C17"], types=PARTS, returns=Bool)
+@contract(F + "_matches_std_sleep_pattern", props=["C17", "C11", "C13", "C19"], types=PARTS, returns=Bool)
 class MatchesStdSleep:
     def value(parts):
         return std_sleep_parts(parts)
 
 
-@contract(F + "_matches_short_sleep_pattern", props=["C17"], types=PARTS, returns=Bool)
+@contract(F + "_matches_short_sleep_pattern", props=["C17", "C11", "C13", "C19"], types=PARTS, returns=Bool)
 class MatchesShortSleep:
     def value(parts):
         return short_sleep_parts(parts)
 
 
-@contract(F + "_matches_std_net_pattern", props=["C17"], types=PARTS, returns=Bool)
+@contract(F + "_matches_std_net_pattern", props=["C17", "C11", "C13", "C19"], types=PARTS, returns=Bool)
 class MatchesStdNet:
     def value(parts):
         return std_net_parts(parts)
 
 
-@contract(F + "_matches_short_net_pattern", props=["C17"], types=PARTS, returns=Bool)
+@contract(F + "_matches_short_net_pattern", props=["C17", "C11", "C13", "C19"], types=PARTS, returns=Bool)
 class MatchesShortNet:
     def value(parts):
         return short_net_parts(parts)
 
 
-@contract(F + "_is_blocking_fs", props=["C17"], types=dict(path=Str, parts=SeqOf(Str)), returns=Bool)
+@contract(F + "_is_blocking_fs", props=["C17", "C11", "C13", "C19"], types=dict(path=Str, parts=SeqOf(Str)), returns=Bool)
 class IsBlockingFs:
     def reveals(path):
         return reveal(is_fs_path, path)
@@ -138,7 +138,7 @@ class IsBlockingFs:
         return is_fs_path(path)
 
 
-@contract(F + "_is_blocking_sleep", props=["C17"], types=dict(path=Str, parts=SeqOf(Str)), returns=Bool)
+@contract(F + "_is_blocking_sleep", props=["C17", "C11", "C13", "C19"], types=dict(path=Str, parts=SeqOf(Str)), returns=Bool)
 class IsBlockingSleep:
     def reveals(path):
         return reveal(is_sleep_path, path)
@@ -147,7 +147,7 @@ class IsBlockingSleep:
         return is_sleep_path(path)
 
 
-@contract(F + "_is_blocking_net", props=["C17"], types=dict(path=Str, parts=SeqOf(Str)), returns=Bool)
+@contract(F + "_is_blocking_net", props=["C17", "C11", "C13", "C19"], types=dict(path=Str, parts=SeqOf(Str)), returns=Bool)
 class IsBlockingNet:
     def reveals(path):
         return reveal(is_net_path, path)
@@ -156,7 +156,7 @@ class IsBlockingNet:
         return is_net_path(path)
 
 
-@contract(F + "_classify_blocking_pattern", props=["C17"], types=dict(path=Str), returns=Opt(Str))
+@contract(F + "_classify_blocking_pattern", props=["C17", "C11", "C13", "C19"], types=dict(path=Str), returns=Opt(Str))
 class ClassifyBlockingPattern:
     def value(path):
         return blocking_pattern(path)
@@ -181,7 +181,7 @@ def in_async_from(n: TSNode) -> Bool:
     return n is not None and ((n.type == "function_item" and is_async_fn(n)) or in_async_from(n.parent))
 
 
-@contract(F + "RustBlockingAsyncAnalyzer._is_in_async_context", props=["C17"], types=dict(node=TSNode, current=TSNode),
+@contract(F + "RustBlockingAsyncAnalyzer._is_in_async_context", props=["C17", "C11", "C13", "C19"], types=dict(node=TSNode, current=TSNode),
           returns=Bool)
 class IsInAsyncContext:
     def requires(node):
@@ -230,7 +230,7 @@ def wrapped_from(n: TSNode) -> Bool:
     return n is not None and (is_wrapper_call(n) or wrapped_from(n.parent))
 
 
-@contract(F + "_node_text_matches_wrapper", props=["C17"], types=dict(node=TSNode), returns=Bool)
+@contract(F + "_node_text_matches_wrapper", props=["C17", "C11", "C13", "C19"], types=dict(node=TSNode), returns=Bool)
 class NodeTextMatchesWrapper:
     def requires(node):
         return node is not None
@@ -239,7 +239,7 @@ class NodeTextMatchesWrapper:
         return text_is_wrapper(node)
 
 
-@contract(F + "_scoped_name_matches_wrapper", props=["C17"], types=dict(node=TSNode), returns=Bool)
+@contract(F + "_scoped_name_matches_wrapper", props=["C17", "C11", "C13", "C19"], types=dict(node=TSNode), returns=Bool)
 class ScopedNameMatchesWrapper:
     def requires(node):
         return node is not None
@@ -251,7 +251,7 @@ class ScopedNameMatchesWrapper:
         return scoped_is_wrapper(node)
 
 
-@contract(F + "_child_is_wrapper_name", props=["C17"], types=dict(child=TSNode), returns=Bool)
+@contract(F + "_child_is_wrapper_name", props=["C17", "C11", "C13", "C19"], types=dict(child=TSNode), returns=Bool)
 class ChildIsWrapperName:
     def requires(child):
         return child is not None
@@ -260,7 +260,7 @@ class ChildIsWrapperName:
         return child_is_wrapper_name(child)
 
 
-@contract(F + "_is_wrapper_call", props=["C17"], types=dict(node=TSNode), returns=Bool)
+@contract(F + "_is_wrapper_call", props=["C17", "C11", "C13", "C19"], types=dict(node=TSNode), returns=Bool)
 class IsWrapperCall:
     def requires(node):
         return node is not None
@@ -269,7 +269,7 @@ class IsWrapperCall:
         return is_wrapper_call(node)
 
 
-@contract(F + "_is_inside_blocking_wrapper", props=["C17"], types=dict(node=TSNode, current=TSNode), returns=Bool)
+@contract(F + "_is_inside_blocking_wrapper", props=["C17", "C11", "C13", "C19"], types=dict(node=TSNode, current=TSNode), returns=Bool)
 class IsInsideBlockingWrapper:
     def requires(node):
         return node is not None
@@ -351,7 +351,7 @@ def blocking_call_of(n, code):
               is_in_test=inside_test_from(n), context=line_ctx(code, n.start_point[0]), blocking_api=call_path(n))
 
 
-@contract(F + "RustBlockingAsyncAnalyzer._extract_call_path", props=["C17"], types=dict(call_node=TSNode), returns=Str)
+@contract(F + "RustBlockingAsyncAnalyzer._extract_call_path", props=["C17", "C11", "C13", "C19"], types=dict(call_node=TSNode), returns=Str)
 class ExtractCallPath:
     def requires(call_node):
         return call_node is not None
@@ -363,7 +363,7 @@ class ExtractCallPath:
         return first_of_type(call_node.children, "scoped_identifier") == first_of_type(rest, "scoped_identifier")
 
 
-@contract(F + "RustBlockingAsyncAnalyzer._check_blocking_call", props=["C17", "C12"],
+@contract(F + "RustBlockingAsyncAnalyzer._check_blocking_call", props=["C17", "C12", "C11", "C13", "C19"],
           types=dict(call_node=TSNode, code=Str), returns=Opt(BlockingCallT))
 class CheckBlockingCall:
     def requires(call_node, code):
@@ -394,7 +394,7 @@ def collect_blocking_seq(s: SeqOf(TSNode), code: Str) -> SeqOf(BlockingCallT):
     return collect_blocking(s[0], code) + collect_blocking_seq(s[1:], code)
 
 
-@contract(F + "RustBlockingAsyncAnalyzer._scan_for_blocking_calls", props=["C17", "C12"],
+@contract(F + "RustBlockingAsyncAnalyzer._scan_for_blocking_calls", props=["C17", "C12", "C11", "C13", "C19"],
           types=dict(node=TSNode, code=Str, calls=SeqOf(BlockingCallT), blocking_call=Opt(BlockingCallT)),
           modifies=["calls"])
 class ScanForBlockingCalls:
@@ -408,12 +408,21 @@ class ScanForBlockingCalls:
         return old.calls + collect_blocking(node, code) == calls + collect_blocking_seq(rest, code)
 
 
-@contract(F + "RustBlockingAsyncAnalyzer.find_blocking_calls", props=["C17"], types=dict(self=AnalyzerT, code=Str),
+@contract(F + "RustBlockingAsyncAnalyzer.find_blocking_calls", props=["C17", "C11", "C13", "C19"], types=dict(self=AnalyzerT, code=Str),
           returns=SeqOf(BlockingCallT), named_types={"BlockingCall": BlockingCallT})
 class FindBlockingCalls:
     def ensures_all_blocking_calls_of_the_file(self, code, result):
         return result == ([] if (not self.tree_sitter_available or rust_root(code) is None)
                           else collect_blocking(rust_root(code), code))
+
+    def witness_all_blocking_calls_of_the_file():
+        # property quantifier: "nested modules, several attributes, async/sync ..." -- async fns nested in async fns, a sync
+        # fn nested in an async fn, a wrapper closure, a test module: every qualifying call exactly once, in document order
+        return {"self": {"tree_sitter_available": True},
+                "code": "mod a {\n    async fn outer() {\n        std::fs::read_to_string(p);\n        async fn inner() {\n"
+                        "            thread::sleep(d);\n            fn helper() {\n                net::TcpStream::connect(a);\n"
+                        "            }\n        }\n        tokio::task::spawn_blocking(|| {\n            std::fs::write(p, b);\n"
+                        "        });\n    }\n    fn sync_only() {\n        std::fs::read(p);\n    }\n}\n"}
 
 
 # ------------------------------------------------------------------ config switches (linter.py)
